@@ -158,6 +158,8 @@ class Gen:
         if k == "chan":
             d = r.choice(["chan ", "chan<- ", "<-chan "])
             e = self.ty(fx, depth - 1)
+            if r.random() < 0.25:
+                e = r.choice(["<-chan int", "chan<- string", "chan error", "<-chan <-chan bool"])
             if d == "chan " and e.startswith("<-chan"):
                 e = "(" + e + ")"
             return d + e
@@ -187,8 +189,13 @@ class Gen:
             n = r.randint(0, 2)
             fs = []
             for i in range(n):
-                tag = ' `json:"f%d"`' % i if r.random() < 0.3 else ""
+                tag = ""
+                if r.random() < 0.35:
+                    tag = r.choice([' `json:"f%d"`' % i, ' `json:"f%d,omitempty" xml:"a b"`' % i, ' `k:"v\\\\w"`',
+                                    ' `plain tag`'])
                 fs.append("F%d %s%s" % (i, self.ty(fx, depth - 1), tag))
+            if r.random() < 0.2 and fx["local_types"]:
+                fs.insert(0, r.choice(["Local", "LocalInt", "*Local"]))     # embedded field
             return "struct{" + "; ".join(fs) + "}"
         if k == "iface":
             n = r.randint(0, 2)
@@ -255,7 +262,8 @@ class Gen:
                 [dict(path=p, name=n, flavour="std", types=ts) for p, n, ts in STDLIB]
         files = []
         ifaces = []
-        local_types = ["Local", "*Local", "LocalInt", "LocalIface"]
+        local_types = ["Local", "*Local", "LocalInt", "LocalIface", "AliasLocal", "DefIface", "GenLocal[string]",
+                       "InstAlias", "PtrAlias", "FnLocal", "GenLocal[Local]"]
         for fi in range(nfiles):
             k = r.randint(1, 5)
             chosen = r.sample(avail, k)
@@ -289,6 +297,10 @@ class Gen:
             if r.random() < 0.15:
                 lines.append('\t_ "%s/dep/alpha"' % MODULE)
                 self.stats["blank_imports"] += 1
+            dot = r.random() < 0.12 and not any(c["path"].endswith("dep/beta") for c in imports)
+            if dot:
+                lines.append('\t. "%s/dep/beta"' % MODULE)
+                self.stats["dot_imports"] += 1
             lines.append(")")
             lines.append("")
             for c in imports:  # every import must be used
@@ -296,14 +308,33 @@ class Gen:
                     lines.append("var _ %s.%s" % (c["qual"], c["types"][0]))
                 else:
                     lines.append("var _ %s.T" % c["qual"])
+            if dot:
+                lines.append("var _ MyInt")
+                lines.append("type DotUser%d interface{ UseDot(m MyInt, t *T) Slice }" % fi)
+                ifaces.append("DotUser%d" % fi)
             lines.append("")
             lines += body
             files.append("\n".join(lines) + "\n")
         decl = "package %s\n\ntype Local struct{ A int }\ntype LocalInt int\ntype LocalIface interface{ L() Local }\n" % pkgname
         decl += "type NotAnIface struct{}\nvar SomeVar int\n"
+        decl += "var IfaceVar LocalIface\nvar ErrVar error = nil\nfunc SomeFunc() {}\nconst SomeConst = 1\n"
+        decl += "type AliasLocal = Local\ntype DefIface LocalIface\ntype GenLocal[T any] struct{ V T }\n"
+        decl += "type InstAlias = GenLocal[int]\ntype PtrAlias = *Local\ntype FnLocal func(Local) (LocalInt, error)\n"
         write(os.path.join(pdir, "a_decl.go"), decl)
         for fi, text in enumerate(files):
             write(os.path.join(pdir, "f%d.go" % fi), text)
+        # files the loader must ignore: tests, other platforms, explicitly ignored
+        if r.random() < 0.3:
+            write(os.path.join(pdir, "zz_extra_test.go"),
+                  'package %s\n\nimport yamlx "%s/dep/alpha"\n\nvar _ yamlx.T\n\ntype OnlyInTest interface{ T() }\n'
+                  % (pkgname, MODULE))
+        if r.random() < 0.3:
+            write(os.path.join(pdir, "zz_windows_plan9.go"),
+                  '//go:build plan9 && windows\n\npackage %s\n\nimport alpha "%s/dep/beta"\n\nvar _ alpha.T\n'
+                  % (pkgname, MODULE))
+        if r.random() < 0.2:
+            write(os.path.join(pdir, "zz_ignored.go"),
+                  '//go:build ignore\n\npackage main\n\nimport beta "%s/dep/alpha"\n\nvar _ beta.T\n' % MODULE)
         # destination subdirectory for -pkg runs, sometimes
         return rel, pkgname, ifaces
 
@@ -392,7 +423,8 @@ class Gen:
                     a += ":" + r.choice(["Fake" + a, "M", a + "Stub", "mockOf" + a])
                 args.append(a)
             if r.random() < 0.06:
-                args.insert(r.randrange(len(args) + 1), r.choice(["Nope", "NotAnIface", "SomeVar", "Local", "", "A:B:C", ":x"]))
+                args.insert(r.randrange(len(args) + 1), r.choice(["Nope", "NotAnIface", "SomeVar", "Local", "", "A:B:C", ":x", "IfaceVar", "ErrVar", "SomeFunc",
+                                                            "SomeConst", "LocalInt", "IfaceVar:M2"]))
             self.stats["args_len"][len(args)] = self.stats["args_len"].get(len(args), 0) + 1
             c = dict(id="g-%s-%d" % (rel.replace("/", "_"), ci), dir=os.path.join(self.root, rel), args=args)
             c.update(self.flags_for(pkgname))
